@@ -1,6 +1,7 @@
 package main
 
 import (
+	"runtime/pprof"
 	"encoding/json"
 	"flag"
 	"fmt"
@@ -205,6 +206,15 @@ func main() {
 	flag.CommandLine.Parse(os.Args[2:])
 	switch cmd {
 	case "check":
+		if pf := os.Getenv("GOSMT_PPROF"); pf != "" {
+			f, _ := os.Create(pf)
+			pprof.StartCPUProfile(f)
+			go func() {
+				time.Sleep(90 * time.Second)
+				pprof.StopCPUProfile()
+				f.Close()
+			}()
+		}
 		os.Exit(cmdCheck())
 	case "list":
 		hs, err := discover(*flagHarness)
@@ -382,28 +392,67 @@ func cmdCheck() int {
 			}
 		}
 	}
-	overlay := buildOverlay(ovDecls, *flagRepo)
 	var patterns []string
 	for d := range dirs {
 		patterns = append(patterns, modPath+"/"+d)
 	}
 	sort.Strings(patterns)
-	cfg := &packages.Config{Mode: packages.LoadAllSyntax, Dir: *flagRepo, BuildFlags: []string{"-tags=" + *flagTags}, Overlay: overlay,
-		Env: append(os.Environ(), "GOFLAGS=-mod=mod", "GOPROXY=off", "GOSUMDB=off", "GOTOOLCHAIN=local")}
-	pkgs, err := packages.Load(cfg, patterns...)
-	if err != nil {
-		fmt.Fprintln(os.Stderr, "load:", err)
-		return 2
-	}
-	bad := false
-	packages.Visit(pkgs, nil, func(p *packages.Package) {
-		for _, e := range p.Errors {
-			fmt.Fprintf(os.Stderr, "package %s: %v\n", p.PkgPath, e)
-			bad = true
+	// Load; a harness file that no longer compiles against the current tree (it names an internal
+	// function that a change renamed or removed) is dropped and its harnesses are reported as
+	// inconclusive, so that the remaining harnesses still run.
+	var pkgs []*packages.Package
+	var droppedHarness []harnessDecl
+	for attempt := 0; ; attempt++ {
+		overlay := buildOverlay(ovDecls, *flagRepo)
+		cfg := &packages.Config{Mode: packages.LoadAllSyntax, Dir: *flagRepo, BuildFlags: []string{"-tags=" + *flagTags}, Overlay: overlay,
+			Env: append(os.Environ(), "GOFLAGS=-mod=mod", "GOPROXY=off", "GOSUMDB=off", "GOTOOLCHAIN=local")}
+		var err error
+		pkgs, err = packages.Load(cfg, patterns...)
+		if err != nil {
+			fmt.Fprintln(os.Stderr, "load:", err)
+			return 2
 		}
-	})
-	if bad {
-		return 2
+		badFiles := map[string]bool{}
+		other := false
+		packages.Visit(pkgs, nil, func(p *packages.Package) {
+			for _, e := range p.Errors {
+				fmt.Fprintf(os.Stderr, "package %s: %v\n", p.PkgPath, e)
+				file := e.Pos
+				if i := strings.Index(file, ":"); i >= 0 {
+					file = file[:i]
+				}
+				if strings.HasPrefix(filepath.Base(file), "zz_h_") {
+					badFiles[file] = true
+				} else {
+					other = true
+				}
+			}
+		})
+		if len(badFiles) == 0 && !other {
+			break
+		}
+		if len(badFiles) == 0 || attempt >= 3 {
+			return 2
+		}
+		var keep []harnessDecl
+		for _, d := range ovDecls {
+			if badFiles[filepath.Join(*flagRepo, d.RelDir, "zz_h_"+filepath.Base(d.File))] {
+				if d.Name != "" {
+					droppedHarness = append(droppedHarness, d)
+				}
+				continue
+			}
+			keep = append(keep, d)
+		}
+		ovDecls = keep
+		var keepH []harnessDecl
+		for _, h := range hs {
+			if !badFiles[filepath.Join(*flagRepo, h.RelDir, "zz_h_"+filepath.Base(h.File))] {
+				keepH = append(keepH, h)
+			}
+		}
+		hs = keepH
+		fmt.Fprintf(os.Stderr, "dropping %d harness file(s) that do not compile against this tree and retrying\n", len(badFiles))
 	}
 	prog, _ := ssautil.AllPackages(pkgs, ssa.InstantiateGenerics)
 	prog.Build()
@@ -554,6 +603,22 @@ func cmdCheck() int {
 			exit = 1
 		}
 		if (rp.Verdict == "inconclusive" || (rp.Verdict == "known-finding" && len(rp.Incon) > 0)) && exit == 0 {
+			exit = 2
+		}
+	}
+	for _, d := range droppedHarness {
+		if *flagProp != "" && d.Opts.Prop != *flagProp {
+			also := false
+			for _, a := range d.Opts.Also {
+				also = also || a == *flagProp
+			}
+			if !also {
+				continue
+			}
+		}
+		reports = append(reports, &HarnessReport{Name: d.Name, Pkg: d.RelDir, Backend: d.Opts.Backend, Verdict: "inconclusive",
+			Incon: []string{"harness file does not compile against this tree (an internal declaration it names changed)"}})
+		if exit == 0 {
 			exit = 2
 		}
 	}
